@@ -2,6 +2,7 @@ import PrqlModel.Drv.Util
 import PrqlModel.Model.Names
 /-! C09 driver.
 `ident\t<dialect>\t<name>`    → `bare <text cps>` | `quoted <quote code point> <text cps>`
+`ident_value\t<dialect>\t<name>` → code points of the `Ident` value (quote character doubled when quoted)
 `is_keyword\t<dialect>\t<name>` → `true` | `false`
 `lex_ident\t<dialect>\t<text>` → `some <name>|<rest>` | `none`
 `assign\t<prefix>\t<counter>\t<name or ->…` → `ok <counter> <name>;<name>…` | `none`     (names: code points, `-` = unnamed)
@@ -21,6 +22,9 @@ def handle (fields : List String) : Option String :=
       | some d => match identPart d (decStr s) with
         | (_, none) => "bare " ++ encStr (emitIdent d (decStr s))
         | (_, some q) => s!"quoted {q.toNat} " ++ encStr (emitIdent d (decStr s)))
+  | ["ident_value", d, s] => some (match dialectOf d with
+      | none => "bad-dialect"
+      | some d => encStr (identPart d (decStr s)).1)
   | ["is_keyword", d, s] => some (match dialectOf d with
       | none => "bad-dialect"
       | some d => if isKeyword d (decStr s) then "true" else "false")
